@@ -25,7 +25,7 @@ def abs_msg(m):
 class C03(C01):
     id = "C03"
     prop_file = "Props/C03"
-    level = "other"
+    level = "proof"
     rule = (
         "the structured message values of C01 (all 9 kinds, every filter choice, all control forms, both credential "
         "choices); the bytes produced by the implementation are (a) compared with the extracted model's encoder and (b) "
@@ -43,13 +43,19 @@ class C03(C01):
         return cs
 
     def model_requests(self, c):
-        return [[100, c["msg"]]]
+        # the model's encoder on the message, and the Coq strict RFC decoder (Msg/RfcDecode.v, the
+        # subject of theorem C03_strict_decoder_reads_back) on the bytes the implementation produced
+        r = res_of(lambda: msgs.pack(c["msg"]))
+        return [[100, c["msg"]], [103, r[1] if r[0] == 0 else b""]]
 
     def impl_run(self, c):
-        return [res_of(lambda: msgs.pack(c["msg"]))[1] if True else None]
+        r = res_of(lambda: msgs.pack(c["msg"]))
+        return [r[1], [abs_msg(c["msg"])] if r[0] == 0 else []]
 
     def finding_key(self, c, what):
         if "UnbindRequest is [APPLICATION 2] NULL" in what:
+            return "unbind-constructed"
+        if what == "diff" and c["msg"][1][0] == 2:
             return "unbind-constructed"
         return None
 
